@@ -43,7 +43,13 @@ fn generate_fvar(static_metadata: &StaticMetadata) -> Option<Fvar> {
             .get(name)
             .unwrap()
             .iter()
-            .find(|&&name_id| allow_reserved || name_id >= min_font_specific_name_id)
+            // among the spec-reserved ids only 2 and 17 may name an instance (the default one)
+            .find(|&&name_id| {
+                name_id >= min_font_specific_name_id
+                    || (allow_reserved
+                        && (name_id == NameId::SUBFAMILY_NAME
+                            || name_id == NameId::TYPOGRAPHIC_SUBFAMILY_NAME))
+            })
             .cloned()
             .unwrap()
     };
